@@ -971,7 +971,7 @@ func c05Narrow(r *core.Report) {
 func c05Text(r *core.Report) {
 	p := r.Prog
 	info := p.Pkg("openapi3filter").TypesInfo
-	r.RunRule("C05.text", "the decoded value is the value the text denotes: in the parameter and body decoders of openapi3filter every strconv.ParseFloat uses the constant bit size 64, and every strings.Trim / TrimLeft / TrimRight is given a constant character set (a computed string there is a prefix or suffix: TrimPrefix / TrimSuffix / slicing is meant)", 1, func() {
+	r.RunRule("C05.text", "the decoded value is the value the text denotes: in the parameter and body decoders of openapi3filter every strconv.ParseFloat uses the constant bit size 64, the integer parser of parameter values uses base 10, and every strings.Trim / TrimLeft / TrimRight is given a constant character set (a computed string there is a prefix or suffix: TrimPrefix / TrimSuffix / slicing is meant)", 1, func() {
 		perFn := map[string]int{}
 		for _, d := range p.AllDecls("openapi3filter") {
 			if d.Body == nil {
@@ -995,6 +995,17 @@ func c05Text(r *core.Report) {
 						r.OK(key, p.Pos(c.Pos()), "bit size 64")
 					} else {
 						r.Bad(key, p.Pos(c.Pos()), fmt.Sprintf("strconv.ParseFloat(%s, %s): with a bit size other than 64 the result is rounded to the nearest float32 and is no longer the number written in the request (0.1 -> 0.10000000149011612, 16777217 -> 16777216); bounds, enum and multipleOf are then checked against another value", core.ExprStr(c.Args[0]), core.ExprStr(c.Args[1])))
+					}
+				case "strconv.ParseInt", "strconv.ParseUint":
+					if fname != "parsePrimitiveCase" && fname != "parsePrimitive" {
+						return true // indexes and internal numbers, not parameter values
+					}
+					perFn[fname]++
+					key := fmt.Sprintf("text:%s/%s#%d", fname, f.Name(), perFn[fname])
+					if v, ok := intConst(info, c.Args[1]); ok && v == 10 {
+						r.OK(key, p.Pos(c.Pos()), "base 10")
+					} else {
+						r.Bad(key, p.Pos(c.Pos()), fmt.Sprintf("strconv.%s(%s, %s, ...): with base 0 the prefix of the text chooses the base, so `010` is 8, `0x1F` is 31 and `1_000` is accepted — a parameter or form field of type integer is a decimal number (a value `010` passes `maximum: 9`)", f.Name(), core.ExprStr(c.Args[0]), core.ExprStr(c.Args[1])))
 					}
 				case "strings.Trim", "strings.TrimLeft", "strings.TrimRight":
 					perFn[fname]++
